@@ -8,6 +8,7 @@ import (
 	"time"
 
 	"github.com/yandex/mysync/internal/config"
+	"github.com/yandex/mysync/verif/fakezk"
 )
 
 // C07 — switchover is resumable after a manager crash (or session loss) at any external call.
@@ -20,6 +21,7 @@ type c07Shape struct {
 	MgrOn    string `json:"manager_on"` // master | replica
 	ToIdx    int    `json:"to_idx"`
 	TailHist bool   `json:"replica_with_unapplied_tail"`
+	Prio     bool   `json:"master_has_the_highest_priority"`
 }
 
 type c07Fault struct {
@@ -77,11 +79,18 @@ func c07Scenario(u *Unit, name string, sh c07Shape, fault *c07Fault) (*Tracker, 
 			s.W.Unlock()
 		}
 		newDualAck(sc, "C07")
+		newFromHostMonitor(sc)
 		tr = NewTracker(sc)
 		if fault != nil {
 			tr.Target, tr.Kind = &fault.B, fault.Kind
 		}
 		s.Start()
+		if sh.Prio {
+			// the preferred master: it wins every priority choice it takes part in
+			for i, h := range hosts {
+				s.ZK.Put("operator", NS+"/ha_nodes/"+h, fmt.Sprintf(`{"priority":%d}`, map[bool]int{true: 10, false: 5 - i}[i == 0]))
+			}
+		}
 		time.Sleep(17 * time.Second)
 		master := hosts[0]
 		mgr := lockHolder(s)
@@ -240,9 +249,52 @@ func c07Scenario(u *Unit, name string, sh c07Shape, fault *c07Fault) (*Tracker, 
 	return tr, res
 }
 
+// newFromHostMonitor judges C14's cluster-level clause: a request that moves the master away from a host is never
+// recorded as succeeded with the master on that very host (whoever resumed it, from whatever half-done state).
+func newFromHostMonitor(sc *Scen) {
+	s := sc.S
+	s.OnZK(func(r fakezk.Rec) {
+		if r.Path != NS+"/last_switch" || (r.Op != "create" && r.Op != "set") {
+			return
+		}
+		var rec swRec
+		if json.Unmarshal([]byte(r.Data), &rec) != nil || rec.Result == nil || !rec.Result.Ok || rec.From == "" {
+			return
+		}
+		sc.Cover("switch-from-recorded-as-succeeded")
+		if m := s.CachedMaster(); m == rec.From {
+			sc.Violate("C14", "switch-from-ends-on-the-from-host", fmt.Sprintf("%s recorded the request of %s to move the master away from %s as succeeded while the recorded master is %s", r.Client, rec.InitiatedBy, rec.From, m))
+		}
+	})
+}
+
+// c14Run is the cluster part of C14: switch --from requests on a cluster whose master has the highest priority, with
+// the manager dying or losing its session at the calls from the move of the master key onwards - the successor resumes
+// the request while the from-host already is an ordinary, preferred replica.
+func c14Run(u *Unit) {
+	sh := c07Gen(u.Seed, u.Idx)
+	sh.Req, sh.Prio, sh.TailHist = "from", true, false
+	if sh.N < 3 {
+		sh.N = 3
+	}
+	c07Faulted(u, sh, fmt.Sprintf("c14-%d-from", u.Idx), func(all []Boundary) int {
+		for i, b := range all {
+			if b.Kind == "dcs" && b.Host == "master" && b.Class == "Set" {
+				return i
+			}
+		}
+		return -1
+	}, tierN(u.Job.Tier, 9, 1000), 6)
+}
+
 func c07Run(u *Unit) {
 	sh := c07Gen(u.Seed, u.Idx)
-	base := fmt.Sprintf("c07-%d-%s", u.Idx, sh.Req)
+	c07Faulted(u, sh, fmt.Sprintf("c07-%d-%s", u.Idx, sh.Req), nil, tierN(u.Job.Tier, 16, 1000), 10)
+}
+
+// c07Faulted runs the fault-free baseline of a shape and then one scenario per sampled (call, fault kind) from the
+// call chosen by from (default: the manager's first write of the request) onwards.
+func c07Faulted(u *Unit, sh c07Shape, base string, from func([]Boundary) int, n, strat int) {
 	tr, _ := c07Scenario(u, base+"-baseline", sh, nil)
 	if tr == nil {
 		return
@@ -256,6 +308,9 @@ func c07Run(u *Unit) {
 			start = i
 			break
 		}
+	}
+	if from != nil {
+		start = from(all)
 	}
 	if start < 0 {
 		return
@@ -276,7 +331,6 @@ func c07Run(u *Unit) {
 	}
 	r := rand.New(rand.NewSource(u.Seed ^ 0x7007))
 	r.Shuffle(len(faults), func(i, j int) { faults[i], faults[j] = faults[j], faults[i] })
-	n := tierN(u.Job.Tier, 16, 1000)
 	if n > len(faults) {
 		n = len(faults)
 	}
@@ -285,7 +339,7 @@ func c07Run(u *Unit) {
 	// the ones a successor has to make sense of
 	k := 0
 	for i := range faults {
-		if k >= 10 || k >= n {
+		if k >= strat || k >= n {
 			break
 		}
 		if faults[i].Kind == "kill-after" && faults[i].B.Mut {
@@ -301,6 +355,9 @@ func c07Run(u *Unit) {
 }
 
 func init() {
+	register(&Prop{ID: "C14", Units: func(tier string) int { return tierN(tier, 8, 100) }, Run: c14Run,
+		Floor: func(string) []string { return []string{"fault:kill-after", "switch-from-recorded-as-succeeded"} },
+		Rule:  "cluster part: unit = shape (3-4 HA, wait count, force_switchover, manager location) with the master holding the highest priority and a switch --from request; a fault-free baseline, then one run per sampled (call from the move of the master key onwards x {manager dies with same-host / other-host successor, session loss}): the successor resumes the request while the from-host is an ordinary replica again; every success record of a from-request is judged against the recorded master; distinct by (n, manager location, force, fault, call class, successor kind)"})
 	register(&Prop{ID: "C07", Units: func(tier string) int { return tierN(tier, 40, 200) }, Run: c07Run,
 		Floor: func(string) []string {
 			return []string{"fault:kill-after", "fault:session-expire", "successor:same-host", "successor:other-host", "successor:session-loss"}
